@@ -384,7 +384,8 @@ def run(rep: Report, prog: Program, tier: str) -> None:
 
     # ---------------- C12-REMB (= C07-REMB): the SSRC list inside a REMB is decoded as written
     from .common import import_rules
-    import_rules(rep, prog, tier, PROP, "C12-REMB", "C07", ["C07-REMB"], "REMB SSRC lists survive pack/unpack (rule C07-REMB): route_rtcp sees the SSRCs the sender listed", 12)
+    import_rules(rep, prog, tier, PROP, "C12-REMB", "C07", ["C07-REMB", "C07-RTCP"],
+                 "REMB SSRC lists and the report blocks of RR / SR packets survive pack / parse (rules C07-REMB, C07-RTCP): route_rtcp sees the SSRCs the peer listed, each block once", 12)
 
     # ---------------- C12-MODEL: the router class evaluated against a reference model over enumerated operation sequences
     rep.rule("C12-MODEL", "RtpRouter behaves like the reference model for sequences of register / unregister / route operations", min_instances=20)
@@ -557,7 +558,8 @@ def run(rep: Report, prog: Program, tier: str) -> None:
     del seen_reg[:]
     me = SimpleNamespace(__cls__=reg_send.cls, _rtp_router=SimpleNamespace(), _rtp_header_extensions_map=SimpleNamespace())
     try:
-        rh.run_method(reg_send, me, [SimpleNamespace(name="SENDER", _ssrc=4321, _rtx_ssrc=8765), SimpleNamespace(headerExtensions=[], codecs=[], muxId="m1")], {})
+        rh.run_method(reg_send, me, [SimpleNamespace(name="SENDER", _ssrc=4321, _rtx_ssrc=8765),
+                                   SimpleNamespace(headerExtensions=[], codecs=[], muxId="m1", encodings=[], rtcp=SimpleNamespace(ssrc=None, cname="c", mux=True))], {})
     except (Raised, Unknown) as ex:
         raise AnalysisError(f"C12-REGISTER cannot evaluate _register_rtp_sender: {ex}")
     ok_ = len(seen_reg) == 1 and seen_reg[0][0] == "register_sender" and 4321 in (seen_reg[0][1] + list(seen_reg[0][2].values()))
